@@ -14,6 +14,8 @@ let () =
   | [_; "gen-cl"; seed; n; out] -> Gen_cl.run (int_of_string seed) (int_of_string n) out
   | [_; "run-cl"; hist; out] -> Cl_io.run_model hist out
   | [_; "run-e2e"; hist; out] -> E2e_io.run_model hist out
+  | [_; "gen-e2e"; seed; n; out] -> Gen_e2e.run (int_of_string seed) (int_of_string n) out
+  | [_; "cmp-e2e"; hist; impl] -> Cmp_e2e.run hist impl
   | [_; "gen-gw-multi"; seed; groups; k; out] -> Gen_gw.run_multi (int_of_string seed) (int_of_string groups) (int_of_string k) out
   | [_; "gen-gw"; seed; n; out] -> Gen_gw.run (int_of_string seed) (int_of_string n) out
   | _ -> prerr_endline "usage: driver chk-topics <file>"; exit 2
